@@ -188,24 +188,33 @@ extern int mpt_axis_set(MPT_STRUCT(axis) *ax, const char *name, MPT_INTERFACE(co
 		return len < 0 ? len : 0;
 	}
 	if (!strcasecmp(name, "int") || !strcasecmp(name, "intv") || !strcasecmp(name, "intervals")) {
-		const char *l;
+		const char *l = 0;
 		if (!src) {
 			ax->intv = def_axis.intv;
 			ax->format &= ~MPT_ENUM(TransformLg);
 			return 0;
 		}
-		if (!(len = src->_vptr->convert(src, 'y', &ax->intv))) {
+		if ((len = src->_vptr->convert(src, 'y', &ax->intv)) >= 0) {
+			if (!len) {
+				ax->intv = def_axis.intv;
+			}
 			ax->format &= ~MPT_ENUM(TransformLg);
-			ax->intv = 0;
+			return 0;
 		}
-		if (len >= 0 || (len = src->_vptr->convert(src, 's', &l)) < 0 || len < 0 || !l) {
+		if ((len = src->_vptr->convert(src, 's', &l)) < 0) {
+			return len;
+		}
+		if (!len || !l) {
+			ax->intv = def_axis.intv;
 			ax->format &= ~MPT_ENUM(TransformLg);
+			return 0;
 		}
-		else if (!strncasecmp(l, "log", 3)) {
-			ax->format |= MPT_ENUM(TransformLg);
-			ax->intv = 0;
+		if (strncasecmp(l, "log", 3)) {
+			return MPT_ERROR(BadValue);
 		}
-		return len < 0 ? len : 0;
+		ax->format |= MPT_ENUM(TransformLg);
+		ax->intv = 0;
+		return 0;
 	}
 	if (!strcasecmp(name, "exp") || !strcasecmp(name, "exponent")) {
 		if (!src || !(len = src->_vptr->convert(src, 'n', &ax->exp))) {
